@@ -352,6 +352,35 @@ func (c08) Run(c Case, env *Env) Result {
 				}
 			}
 		}
+		// float lists of both widths behind a typed map (list type numbering), and a long list of a NAMED
+		// float64 type (the element conversion of long lists)
+		for j, f := range []float64{0.1, 1e300, math.Pi, -2.5e-7} {
+			long := make([]zoo.Celsius, 1100)
+			for i := range long {
+				long[i] = zoo.Celsius(f * float64(i+1))
+			}
+			for k, v := range []interface{}{
+				&zoo.MapThenFloats{M: zoo.NamedMap{"k": 1}, A: []float32{1.5}, B: []float64{f, 0.1}, C: []float64{0.1, f, -f}, D: []float32{2.5, 0.25}},
+				&zoo.NamedScalars{C: zoo.Celsius(f), Cs: long},
+			} {
+				res.Evals++
+				res.NT = append(res.NT, Hash64(fmt.Sprintf("lists|%d|%d", j, k)))
+				cc := c
+				cc.Sub = 1000 + j*2 + k
+				o := roundTrip(v)
+				feats := append(doubleFeatures(f), []string{"lists-after-typed-map", "long-list-of-named-float64"}[k])
+				switch {
+				case o.Panic != nil:
+					env.Viol(&res, Violation{Class: o.Panic.Class, Features: feats, Detail: o.Stage + " panic " + o.Panic.Msg, Case: cc})
+				case o.EncErr != nil || o.DecErr != nil:
+					env.Viol(&res, Violation{Class: "dec-error", Features: feats, Detail: fmt.Sprintf("%T (%s): %v %v", v, hexClip(o.Wire), o.EncErr, o.DecErr), Case: cc})
+				default:
+					if d := zoo.Equiv(v, o.Dec, zoo.EquivOpts{}); d != "" {
+						env.Viol(&res, Violation{Class: "mismatch:value", Features: feats, Detail: fmt.Sprintf("%T: %s (%s)", v, d, hexClip(o.Wire)), Case: cc})
+					}
+				}
+			}
+		}
 	case "mapkeys":
 		// float64 map keys, NaN included: a NaN key can only be reached by iteration
 		for j, f := range []float64{math.NaN(), math.Inf(1), math.Inf(-1), 1.5, -2, 0.1, 1e300, math.SmallestNonzeroFloat64} {
